@@ -545,6 +545,13 @@ def execute(case, setup=None):
             raised = err
     record.outcome = outcome
     record.raised = raised
+    # where the environment's clock stands once run() is over (standalone runs only)
+    record.env_now_after = None
+    if not scenario.get("embedded") and world.env is not None and outcome[0] != "abort":
+        try:
+            record.env_now_after = world.env.now
+        except Exception as err:                      # noqa
+            record.env_now_after = ("error", type(err).__name__)
     record.trace = world.trace
     record.acts = seam.acts
     record.sched = seam.sched
